@@ -1355,6 +1355,145 @@ func (g *gen) forkStmt() string {
 	return strings.TrimSuffix(sb.String(), "\n")
 }
 
+// "object factories": a function that reads and writes no outer variable returns a container (map / array,
+// nested, below and above the size thresholds) of closures sharing captured state.  It is instantiated two or
+// three times, with EQUAL and with different arguments; the state is changed through one instance and observed
+// through all.  Every call must give fresh closures over a fresh environment (no remembered result may be shared).
+// Also closures returned in containers from nested makers and from loops.
+func (g *gen) factoryStmt() string {
+	g.feat("factory")
+	var sb strings.Builder
+	w := func(f string, a ...any) { sb.WriteString(fmt.Sprintf(f, a...) + "\n") }
+	mk, n, p := g.fresh("mk"), g.fresh("n"), g.fresh("p")
+	// parameters: none, one int, int + string (all hashable)
+	np := g.n(3)
+	params, initv := "", "0"
+	switch np {
+	case 1:
+		params, initv = p, p
+	case 2:
+		params, initv = p+", tag", p+" + len(tag)"
+	}
+	argsA := []string{"", fmt.Sprint(g.n(5)), fmt.Sprintf("%d, %s", g.n(5), g.pick("\"a\"", "\"bc\"", "\"\""))}[np]
+	argsB := []string{"", fmt.Sprint(10 + g.n(5)), fmt.Sprintf("%d, \"zzz\"", 10+g.n(5))}[np]
+	def := g.pick(n+" = "+initv, n+" := "+initv)
+	inc := fmt.Sprintf("() => {%s = %s + 1\n%s}", n, n, n)
+	if g.pct(30) {
+		inc = fmt.Sprintf("() => {%s++}", n)
+	}
+	get := fmt.Sprintf("() => %s", n)
+	add := fmt.Sprintf("x => {%s = %s + x\n%s}", n, n, n)
+	pad := func(k int) string { // extra entries so that the container crosses its threshold
+		var ps []string
+		for i := 0; i < k; i++ {
+			ps = append(ps, fmt.Sprint(100+i))
+		}
+		return strings.Join(ps, ", ")
+	}
+	shape := g.n(6)
+	var body string
+	var callInc, callGet, callAdd func(o string) string
+	switch shape {
+	case 0: // small map of closures
+		g.feat("factory-map")
+		body = fmt.Sprintf("{\"inc\": %s, \"get\": %s, \"add\": %s}", inc, get, add)
+		callInc = func(o string) string { return o + ".inc()" }
+		callGet = func(o string) string { return o + ".get()" }
+		callAdd = func(o string) string { return o + "[\"add\"](" + fmt.Sprint(2+g.n(5)) + ")" }
+	case 1: // large map (more than 4 pairs)
+		g.feat("factory-map-large")
+		body = fmt.Sprintf("{\"inc\": %s, \"get\": %s, \"add\": %s, \"a\": 1, \"b\": [2, 3], \"c\": \"s\", \"d\": nil}", inc, get, add)
+		callInc = func(o string) string { return o + ".inc()" }
+		callGet = func(o string) string { return o + "[\"get\"]()" }
+		callAdd = func(o string) string { return o + ".add(" + fmt.Sprint(2+g.n(5)) + ")" }
+	case 2: // small array
+		g.feat("factory-array")
+		body = fmt.Sprintf("[%s, %s, %s]", inc, get, add)
+		callInc = func(o string) string { return o + "[0]()" }
+		callGet = func(o string) string { return o + "[1]()" }
+		callAdd = func(o string) string { return o + "[2](" + fmt.Sprint(2+g.n(5)) + ")" }
+	case 3: // large array (more than 8 elements)
+		g.feat("factory-array-large")
+		body = fmt.Sprintf("[%s, %s, %s, %s]", inc, get, add, pad(6+g.n(4)))
+		callInc = func(o string) string { return o + "[0]()" }
+		callGet = func(o string) string { return o + "[1]()" }
+		callAdd = func(o string) string { return o + "[2](" + fmt.Sprint(2+g.n(5)) + ")" }
+	case 4: // nested: map holding an array of closures
+		g.feat("factory-nested")
+		body = fmt.Sprintf("{\"ops\": [%s, %s], \"more\": {\"add\": %s}, \"id\": %s}", inc, get, add, initv)
+		callInc = func(o string) string { return o + ".ops[0]()" }
+		callGet = func(o string) string { return o + ".ops[1]()" }
+		callAdd = func(o string) string { return o + ".more.add(" + fmt.Sprint(2+g.n(5)) + ")" }
+	default: // nested arrays
+		g.feat("factory-nested")
+		body = fmt.Sprintf("[[%s, %s], [%s], %s]", inc, get, add, pad(g.n(8)))
+		callInc = func(o string) string { return o + "[0][0]()" }
+		callGet = func(o string) string { return o + "[0][1]()" }
+		callAdd = func(o string) string { return o + "[1][0](" + fmt.Sprint(2+g.n(5)) + ")" }
+	}
+	if g.pct(75) {
+		w("func %s(%s) {%s\n%s}", mk, params, def, body)
+	} else {
+		w("%s = func(%s) {%s\n%s}", mk, params, def, body)
+	}
+	switch g.n(4) {
+	case 0, 1: // instances with equal and with different arguments
+		o1, o2, o3 := g.fresh("o"), g.fresh("o"), g.fresh("o")
+		w("%s = %s(%s)", o1, mk, argsA)
+		w("%s = %s(%s)", o2, mk, argsA)
+		w("%s = %s(%s)", o3, mk, argsB)
+		objs := []string{o1, o2, o3}
+		for i, k := 0, 1+g.n(4); i < k; i++ {
+			o := objs[g.n(3)]
+			if g.pct(60) {
+				w("%s", callInc(o))
+			} else {
+				w("%s", callAdd(o))
+			}
+		}
+		w("println(%s, %s, %s)", callGet(o1), callGet(o2), callGet(o3))
+		if g.pct(50) { // a later instance with the same arguments starts fresh too
+			o4 := g.fresh("o")
+			w("%s = %s(%s)", o4, mk, argsA)
+			w("println(%s, %s)", callGet(o4), callInc(o4))
+			w("println(%s, %s)", callGet(o1), callGet(o4))
+		}
+	case 2: // instances made in a loop (equal arguments on every iteration)
+		g.feat("factory-loop")
+		objs, i := g.fresh("objs"), g.fresh("i")
+		w("%s = []", objs)
+		w("for %s = %d {%s = %s + [%s(%s)]}", i, 2+g.n(2), objs, objs, mk, argsA)
+		w("%s", callInc(objs+"[0]"))
+		w("%s", callAdd(objs+"[0]"))
+		w("%s", callInc(objs+"[-1]"))
+		w("println(%s, %s, %s)", callGet(objs+"[0]"), callGet(objs+"[1]"), callGet(objs+"[-1]"))
+	default: // nested maker: the factory is called twice with equal arguments inside another function
+		g.feat("factory-nested-maker")
+		outer, a, b := g.fresh("mkk"), g.fresh("a"), g.fresh("b")
+		w("func %s() {%s = %s(%s)\n%s = %s(%s)\n%s\n%s\n[%s, %s]}", outer, a, mk, argsA, b, mk, argsA, callInc(a), callInc(a), a, b)
+		pr := g.fresh("pr")
+		w("%s = %s()", pr, outer)
+		w("println(%s, %s)", callGet(pr+"[0]"), callGet(pr+"[1]"))
+		pr2 := g.fresh("pr")
+		w("%s = %s()", pr2, outer)
+		w("%s", callInc(pr2+"[1]"))
+		w("println(%s, %s, %s, %s)", callGet(pr+"[0]"), callGet(pr+"[1]"), callGet(pr2+"[0]"), callGet(pr2+"[1]"))
+	}
+	return strings.TrimSuffix(sb.String(), "\n")
+}
+
+func (g *gen) factoryProgram() string {
+	var parts []string
+	n := 1 + g.n(2)
+	for i := 0; i < n; i++ {
+		if g.pct(30) {
+			parts = append(parts, g.stmt(1, tAny))
+		}
+		parts = append(parts, g.factoryStmt())
+	}
+	return strings.ReplaceAll(strings.Join(parts, "\n"), "\n", ";\n")
+}
+
 // a program made mostly of fork patterns (its own stream in the harness)
 func (g *gen) forkProgram() string {
 	var parts []string
@@ -1404,8 +1543,11 @@ func (g *gen) stmt(nest int, ret ty) string {
 		}
 		return g.printStmt(d)
 	case k < 83 && !g.inFunc() && g.inLoop == 0:
-		if g.pct(40) {
+		if g.pct(35) {
 			return g.forkStmt()
+		}
+		if g.pct(40) {
+			return g.factoryStmt()
 		}
 		return g.closureStmt()
 	case k < 86:
